@@ -5,6 +5,7 @@ import (
 	"encoding/json"
 	"fmt"
 	"runtime"
+	"time"
 
 	tq "github.com/facebookincubator/tacquito"
 
@@ -22,7 +23,7 @@ func init() {
 					"(values 0,1,2,0x7f,0x80,0xff,orig+1,orig-1) and of sampled payload offsets, every (length octet raised, tail truncated) pair; plus every byte string of length <=4 over {0,1,0xff}, " +
 					"every fixed-part/length-octet combination over {0,1,2,255} with 0..3 trailing bytes; plus packets/headers with every lying length field. Every input is given to all nine decoders and to Request.Fields, " +
 					"three times into fresh values (exact-capacity slice, and twice with 64 bytes of spare capacity) and, when accepted, once more into a long-lived destination that earlier inputs were decoded into (same value required) filled with two different patterns (results must not depend on the spare bytes). " +
-					"distinct_nontrivial counts distinct (decoder, input) pairs where the input is not a valid encoding for that decoder",
+					"a decoder or Request.Fields call that has not returned after 60 s (they take microseconds) is a no-return violation recorded by a watchdog. distinct_nontrivial counts distinct (decoder, input) pairs where the input is not a valid encoding for that decoder",
 				Assumptions: []string{"allocation is measured with runtime.MemStats.TotalAlloc around single decodes in a worker that runs nothing else; bound 16*len(input)+16KiB for the decoders, 32*len(input)+32KiB for Request.Fields (which renders every field as text)"}}
 		},
 		Workers: constInt(16, 16),
@@ -257,7 +258,10 @@ func render(name string, v tq.EncoderDecoder) string {
 func c04One(c *Ctx, name string, in []byte, measure bool) {
 	c.R.Eval()
 	cs := c04Case{Decoder: name, Input: fmt.Sprintf("%x", in)}
-	c.Cur(cs) // a fatal error of the runtime (stack overflow, out of memory) cannot be recovered: written ahead for the parent
+	// a fatal error of the runtime (stack overflow, out of memory) cannot be recovered: written ahead for the parent; a
+	// decoder that never returns is seen by the watchdog (decoding at most 64 KiB takes microseconds)
+	c.CurGuard(cs, name+"/no-return", fmt.Sprintf("%s did not return on a %d-byte input", name, len(in)), 60*time.Second)
+	defer c.Unguard()
 	fail := func(kind, what string) {
 		c.R.Violate(name+"/"+kind, fmt.Sprintf("%s on %d-byte input: %s", name, len(in), what), cs)
 	}
@@ -387,7 +391,8 @@ func c04One(c *Ctx, name string, in []byte, measure bool) {
 func c04Fields(c *Ctx, in []byte) {
 	for typ := 1; typ <= 3; typ++ {
 		c.R.Eval()
-		c.Cur(c04Case{Decoder: fmt.Sprintf("Fields%d", typ), Input: fmt.Sprintf("%x", in)})
+		c.CurGuard(c04Case{Decoder: fmt.Sprintf("Fields%d", typ), Input: fmt.Sprintf("%x", in)}, fmt.Sprintf("Request.Fields%d/no-return", typ),
+			fmt.Sprintf("Request.Fields (type %d) did not return on a %d-byte body", typ, len(in)), 60*time.Second)
 		req := tq.Request{Header: tq.Header{Type: tq.HeaderType(typ)}, Body: append(make([]byte, 0, len(in)), in...)}
 		var before, after runtime.MemStats
 		runtime.ReadMemStats(&before)
@@ -400,6 +405,7 @@ func c04Fields(c *Ctx, in []byte) {
 			c.R.Violate("Request.Fields/panic", fmt.Sprintf("Request.Fields panicked on type %d: %s", typ, p), c04Case{Decoder: fmt.Sprintf("Fields%d", typ), Input: fmt.Sprintf("%x", in)})
 		}
 	}
+	c.Unguard()
 }
 
 func c04Run(c *Ctx) {
